@@ -24,6 +24,7 @@ import (
 
 	"mellium.im/xmlstream"
 	"mellium.im/xmpp"
+	"mellium.im/xmpp/jid"
 	"mellium.im/xmpp/mux"
 	"mellium.im/xmpp/stanza"
 
@@ -2343,6 +2344,86 @@ func Facts(repo string) (string, error) {
 		sb.WriteString("def routeTable : Option (List RouteRow) := some [\n" + strings.Join(rows, ",\n") + "]\n\n")
 	} else {
 		sb.WriteString("def routeTable : Option (List RouteRow) := none\n\n")
+	}
+	// ---- own addresses ---------------------------------------------------------------------------
+	// jid.Parse's verdicts on the address forms of the probe, and what the real multiplexer does with a
+	// stanza of every kind x to x from over {absent} + those forms: an error and no handler, or the
+	// header of the stanza value the wildcard handler is handed
+	forms := []string{"a@example.org/r", "A@EXAMPLE.org/R", "b@Example.NET", "@@", "a@/r", "example.org", ""}
+	var prow []string
+	for _, f := range forms {
+		if f == "" {
+			continue
+		}
+		if j, err := jid.Parse(f); err != nil {
+			prow = append(prow, fmt.Sprintf("(%s, none)", leanStr(f)))
+		} else {
+			prow = append(prow, fmt.Sprintf("(%s, some %s)", leanStr(f), leanStr(j.String())))
+		}
+	}
+	sb.WriteString("/-- the verdicts of the real jid.Parse on the address forms of the probe -/\ndef parseTable : Option (List (String × Option String)) := some [" + strings.Join(prow, ", ") + "]\n\n")
+	opts := []*string{nil}
+	for i := range forms {
+		opts = append(opts, &forms[i])
+	}
+	rows = nil
+	ok = true
+	for _, kind := range []string{"i", "m", "p"} {
+		local := map[string]string{"i": "iq", "m": "message", "p": "presence"}[kind]
+		for _, to := range opts {
+			for _, from := range opts {
+				as := []xml.Attr{{Name: xml.Name{Local: "id"}, Value: "p1"}}
+				if to != nil {
+					as = append(as, xml.Attr{Name: xml.Name{Local: "to"}, Value: *to})
+				}
+				if from != nil {
+					as = append(as, xml.Attr{Name: xml.Name{Local: "from"}, Value: *from})
+				}
+				var seen []hdr
+				var herr error
+				wrote := 0
+				pn := common.Recover(func() {
+					var o mux.Option
+					switch kind {
+					case "i":
+						o = mux.IQFunc(stanza.IQType(""), xml.Name{}, func(v stanza.IQ, _ xmlstream.TokenReadEncoder, _ *xml.StartElement) error {
+							seen = append(seen, hdr{string(v.Type), v.ID, v.To.String(), v.From.String()})
+							return nil
+						})
+					case "m":
+						o = mux.MessageFunc(stanza.NormalMessage, xml.Name{}, func(v stanza.Message, _ xmlstream.TokenReadEncoder) error {
+							seen = append(seen, hdr{string(v.Type), v.ID, v.To.String(), v.From.String()})
+							return nil
+						})
+					default:
+						o = mux.PresenceFunc(stanza.PresenceType(""), xml.Name{}, func(v stanza.Presence, _ xmlstream.TokenReadEncoder) error {
+							seen = append(seen, hdr{string(v.Type), v.ID, v.To.String(), v.From.String()})
+							return nil
+						})
+					}
+					m := mux.New(c08.NSClient, o)
+					name := xml.Name{Space: c08.NSClient, Local: local}
+					start := xml.StartElement{Name: name, Attr: as}
+					fr := &framedReader{toks: []xml.Token{xml.StartElement{Name: q}, xml.EndElement{Name: q}, xml.EndElement{Name: name}}, framing: "sep"}
+					herr = m.HandleXMPP(fr, &start)
+					wrote = fr.wrote
+				})
+				res := "none"
+				switch {
+				case pn != "" || wrote > 0 || len(seen) > 1 || (herr == nil) != (len(seen) == 1):
+					ok = false
+				case len(seen) == 1:
+					res = "some " + leanHdr(seen[0])
+				}
+				rows = append(rows, fmt.Sprintf("  ⟨%s, %s, %s⟩", leanKind(kind), leanAttrs(as), res))
+			}
+		}
+	}
+	sb.WriteString("/-- (kind, attributes of the start element, none = an error and no handler / the header of the stanza value) -/\n")
+	if ok {
+		sb.WriteString("def addrTable : Option (List AddrRow) := some [\n" + strings.Join(rows, ",\n") + "]\n\n")
+	} else {
+		sb.WriteString("def addrTable : Option (List AddrRow) := none\n\n")
 	}
 	sb.WriteString("end XmppModel.Generated.C14\n")
 	return sb.String(), nil
